@@ -1,7 +1,7 @@
 """C01 — TFIM sampler and the quantum thermal state (partial by nature; see QmcProps/C01.lean)."""
 from checks import pure_fns
-LEAN_TARGETS = ["QmcProps.C01", "drv_c01", "QmcProps.C08", "drv_c08", "QmcProps.C09", "drv_c09", "QmcProofs.KernelInvariance"]
-BINS = ["c01", "c08", "c09"]
+LEAN_TARGETS = ["QmcProps.C01", "drv_c01", "QmcProps.C08", "drv_c08", "QmcProps.C09", "drv_c09", "QmcProofs.KernelInvariance", "QmcProps.C17", "drv_c17"]
+BINS = ["c01", "c08", "c09", "c17"]
 
 # Theorems of other properties that C01's claim rests on (kernel invariance of the SSE weight): they are
 # audited here too, and their correspondence modes are re-run, so that a change to the diagonal or cluster
@@ -11,6 +11,7 @@ KERNEL_THEOREMS = [
     "Qmc.C08.offdiag_never_altered_M", "Qmc.C08.zero_weight_never_inserted_M",
     "Qmc.C09.clusterMove_weight_ising", "Qmc.C09.clusterMove_symm", "Qmc.C09.clusterMove_consistent",
     "Qmc.C09.clusterFlips_half", "Qmc.C09.clusterFlips_weight0",
+    "Qmc.C17.measure_points", "Qmc.C17.measure_count", "Qmc.C17.measure_energy",
 ]
 # composition into one `timestep` kernel (QmcProofs/KernelInvariance.lean, design_notes/KernelInvariance.md)
 COMPOSITION_THEOREMS = [
@@ -52,6 +53,7 @@ def main(ck):
         ck.prop = save + "k"          # separate .audit file
         ck.audit("QmcProps.C09", [t for t in KERNEL_THEOREMS if t.startswith("Qmc.C09")])
         ck.audit("QmcProps.C08", [t for t in KERNEL_THEOREMS if t.startswith("Qmc.C08")])
+        ck.audit("QmcProps.C17", [t for t in KERNEL_THEOREMS if t.startswith("Qmc.C17")])
         ck.prop = save + "c"
         ck.audit("QmcProofs.KernelInvariance", COMPOSITION_THEOREMS)
         ck.prop = save
@@ -63,6 +65,9 @@ def main(ck):
         ck.correspond("diagonal-sweep-trajectory", "drv_c08", ck.harness("c08", ["traj"]))
         ck.correspond("diagonal-slot-probabilities", "drv_c08", ck.harness("c08", ["prob"]))
         ck.correspond("cluster-equilibrium-strings", "drv_c09", ck.harness("c09", ["equilibrium"]))
+        # the reported energy is the measuring loop's -<n>/beta + offset over the sampled steps (C17 modes)
+        ck.correspond("energy-measuring-loop", "drv_c17", ck.harness("c17", ["measure"]))
+        ck.correspond("energy-measuring-loop-ising", "drv_c17", ck.harness("c17", ["ising"]))
     ck.notes.append("Kernel invariance of the SSE weight is decided by C08 (slot ratio + weight_step) and C09 (cluster move "
                     "weight-preserving, symmetric); ergodicity and L -> infinity are not theorems.")
     return ck.finish(RULE)
